@@ -24,6 +24,9 @@ def layout(fb, suffix):
     return None
 
 
+HDR = {'magic': 'magic', 'segsize': 'segsize', 'version': 'version', 'generation': 'generation'}   # role -> field name, see OpenModel
+
+
 def name_atom(term, hdr_size, full_size):
     """classify a condition term of the open path -> (atom name, 'passes when' truth) or None"""
     ft = fmt(term)
@@ -39,11 +42,11 @@ def name_atom(term, hdr_size, full_size):
         ug = common.unsigned_ge(cop, c)
         if ug is not None and not derived_x and 'read#' not in sx and 'open#' not in sx and 'mmap#' not in sx:
             k, truth = ug
-            if '.version' in sx and 'load#' in sx and k == 1:
+            if ('.%s' % HDR['version']) in sx and 'load#' in sx and k == 1:
                 return ('version>0', truth)
-            if '.generation' in sx and 'load#' in sx and k == 1:
+            if ('.%s' % HDR['generation']) in sx and 'load#' in sx and k == 1:
                 return ('generation>0', truth)
-            if 'segsize' in sx:
+            if HDR['segsize'] in sx or 'segsize' in sx:
                 return ('segsize>=%d' % k, truth)
     if op in ('Lt', 'Le', 'Gt', 'Ge', 'Eq', 'Ne'):
         a, b = term[2]
@@ -58,13 +61,13 @@ def name_atom(term, hdr_size, full_size):
         if 'read#' in sa and 'mmap#' not in sa and op == 'Lt' and cb is not None:
             return ('read<header(%d)' % cb, False)
         return None
-    if op == 'call' and term[2][0].endswith('::eq') and '.magic' in ft:
+    if op == 'call' and term[2][0].endswith('::eq') and ('.%s' % HDR['magic']) in ft:
         return ('magic==SHM_MAGIC', True)
-    if op == 'call' and term[2][0].endswith('::ne') and '.magic' in ft:
+    if op == 'call' and term[2][0].endswith('::ne') and ('.%s' % HDR['magic']) in ft:
         return ('magic==SHM_MAGIC', False)
-    if op in ('eq',) and '.magic' in ft:
+    if op in ('eq',) and ('.%s' % HDR['magic']) in ft:
         return ('magic==SHM_MAGIC', True)
-    if op in ('ne',) and '.magic' in ft:
+    if op in ('ne',) and ('.%s' % HDR['magic']) in ft:
         return ('magic==SHM_MAGIC', False)
     return None
 
@@ -102,12 +105,13 @@ class OpenModel:
             return
         self.body = cands[0]
         chk.saw(self.body)
-        hdr = layout(fb, 'shm_header::ShmHeader')
+        hdr = layout(fb, '::ShmHeader')
         rec = layout(fb, 'clock_bound_shm::ClockErrorBound')
         if not hdr or not rec:
             chk.missing(rule, 'layout of ShmHeader / ClockErrorBound')
             return
         self.hdr_size, self.rec_size = hdr['size'], rec['size']
+        HDR.update(common.abi_names(fb)['hdr'])
         self.engine = common.mk_engine(fb)
         self.paths = [p for p in self.engine.run(self.body) if p.kind != 'unreachable']
         chk.analysed['paths'] += len(self.paths)
